@@ -68,6 +68,9 @@ Proof.
     destruct (Nat.eq_dec j i) as [E|E]; [specialize (Hheld _ Hj E); discriminate | apply Hother; assumption].
   - (* MonResume *) destruct (signal _ _ _); [|discriminate]. inv_some. intros j Hj. cbn in Hj |- *.
     destruct (Nat.eq_dec j i) as [E|E]; [specialize (Hheld _ Hj E); discriminate | apply Hother; assumption].
+  - (* ConsumeLock *) destruct (mux s) eqn:Hm; [discriminate|]. inv_some. intros j Hj. cbn in Hj. rewrite Hm in Hj. discriminate.
+  - (* ConsumeRecv *) destruct (loop s); try discriminate. inv_some. intros j Hj. cbn in Hj |- *.
+    destruct (Nat.eq_dec j i) as [E|E]; [specialize (Hheld _ Hj E); discriminate | apply Hother; assumption].
   - discriminate.
 Qed.
 
@@ -104,10 +107,10 @@ Qed.
 (* every unfinished call can step, or waits for subMux and the holder can step *)
 Theorem no_call_blocks P s :
   nonblocking P = true -> inv s ->
-  forall i p, nth_error (threads s) i = Some p -> p <> Done ->
+  forall i p, nth_error (threads s) i = Some p -> p <> Done -> p <> ConsumeRecv ->
     can_step_api P s i = true \/ exists j, mux s = Some j /\ j <> i /\ can_step_api P s j = true.
 Proof.
-  intros Hnb Hinv i p Hi Hp.
+  intros Hnb Hinv i p Hi Hp Hp2.
   pose proof Hnb as Hnb'. unfold nonblocking in Hnb'. apply andb_true_iff in Hnb'. destruct Hnb' as [Hnb' Hsb].
   apply andb_true_iff in Hnb'. destruct Hnb' as [Hpb Hrb]. apply negb_true_iff in Hpb, Hrb, Hsb.
   assert (Hwait : forall s1 : state, (mux s = None -> step_api P s i = Some s1) ->
@@ -136,21 +139,23 @@ Proof.
     destruct (signal false _ _) eqn:E; [reflexivity | exfalso; eapply signal_nonblocking; exact E].
   - left. unfold can_step_api, step_api. rewrite Hi, Hrb.
     destruct (signal false _ _) eqn:E; [reflexivity | exfalso; eapply signal_nonblocking; exact E].
+  - (* ConsumeLock *) eapply Hwait. intros Hm. unfold step_api. rewrite Hi, Hm. reflexivity.
 Qed.
 
 (* the publish loop: its own pause signal never blocks; when it wants subMux, the lock is free or its holder can step *)
 Theorem loop_not_stuck P s :
   nonblocking P = true -> inv s ->
   (loop s = LWantPause -> step_loop P s SelfPause <> None) /\
-  (loop s = LWantLock -> step_loop P s Handle <> None \/ exists j, mux s = Some j /\ can_step_api P s j = true).
+  (loop s = LWantLock \/ (exists id, loop s = LWantLockData id) ->
+     step_loop P s Handle <> None \/ exists j, mux s = Some j /\ can_step_api P s j = true).
 Proof.
   intros Hnb Hinv. split; intros Hl.
   - unfold step_loop. rewrite Hl. unfold nonblocking in Hnb. apply andb_true_iff in Hnb. destruct Hnb as [Hnb _].
     apply andb_true_iff in Hnb. destruct Hnb as [Hp _]. apply negb_true_iff in Hp. rewrite Hp.
     destruct (signal false _ _) eqn:E; [discriminate | exfalso; eapply signal_nonblocking; exact E].
-  - unfold step_loop. rewrite Hl. destruct (mux s) as [j|] eqn:Hm.
+  - unfold step_loop. destruct (mux s) as [j|] eqn:Hm.
     + right. exists j. split; [reflexivity|]. destruct (Hinv _ Hm) as [q [Hq Hh]]. eapply holder_can_step; eassumption.
-    + left. discriminate.
+    + left. destruct Hl as [-> | [id ->]]; discriminate.
 Qed.
 
 Lemma can_step_enabled P s i : can_step_api P s i = true -> In (AApi i) (enabled P s).
@@ -166,12 +171,12 @@ Theorem not_deadlocked P s : nonblocking P = true -> inv s -> deadlocked P s = f
 Proof.
   intros Hnb Hinv. unfold deadlocked. destruct (api_finished s) eqn:Ef; [reflexivity|]. cbn.
   unfold api_finished in Ef.
-  assert (Hex : exists i p, nth_error (threads s) i = Some p /\ p <> Done).
+  assert (Hex : exists i p, nth_error (threads s) i = Some p /\ p <> Done /\ p <> ConsumeRecv).
   { clear -Ef. induction (threads s) as [|h t IH]; [discriminate|]. cbn in Ef. destruct h;
-      try (exists 0; eexists; split; [reflexivity | discriminate]).
-    cbn in Ef. destruct (IH Ef) as [i [p [H1 H2]]]. exists (S i), p. split; assumption. }
-  destruct Hex as [i [p [Hi Hp]]].
-  destruct (no_call_blocks P s Hnb Hinv i p Hi Hp) as [H|[j [_ [_ H]]]];
+      try (exists 0; eexists; split; [reflexivity | split; discriminate]);
+      cbn in Ef; destruct (IH Ef) as [i [p [H1 H2]]]; exists (S i), p; split; assumption. }
+  destruct Hex as [i [p [Hi [Hp Hp2]]]].
+  destruct (no_call_blocks P s Hnb Hinv i p Hi Hp Hp2) as [H|[j [_ [_ H]]]];
     apply can_step_enabled in H; destruct (enabled P s); [inversion H | reflexivity | inversion H | reflexivity].
 Qed.
 
@@ -187,8 +192,12 @@ Definition api_pc (p : pc) : bool :=
 
 Definition api_op (o : op) : bool := match o with OpSubscribe _ | OpForget _ => true | _ => false end.
 
+(* scripts of keep-alive answers and time-outs (a data notification hands control to the application's consumer) *)
 Definition error_free (scr : list pub_outcome) : bool :=
-  forallb (fun o => match o with PErr => false | _ => true end) scr.
+  forallb (fun o => match o with PErr | PData _ => false | _ => true end) scr.
+
+Definition loop_ok (l : loop_pc) : bool :=
+  match l with LWantPause | LWantLockData _ | LNotifying => false | _ => true end.
 
 Definition fixed_protocol (P : params) : bool :=
   nonblocking P && subscribe_signals_after P && resume_wins P && (1 <=? cap_resume P).
@@ -208,7 +217,7 @@ Qed.
 Record J (s : state) : Prop := {
   J_api : forall i p, nth_error (threads s) i = Some p -> api_pc p = true;
   J_scr : error_free (script s) = true;
-  J_nowp : loop s <> LWantPause;
+  J_nowp : loop_ok (loop s) = true;
   J_holder : forall j p, nth_error (threads s) j = Some p -> holds_lock p = true -> mux s = Some j;
   J_paused : loop s = LPaused -> resumed s = false;
   J_fp : forall i, nth_error (threads s) i = Some ForgetPause -> subs s = [];
@@ -237,7 +246,7 @@ Proof.
   constructor; cbn.
   - intros i p Hi. destruct (Hth _ _ Hi) as [id [-> | ->]]; reflexivity.
   - exact Hscr.
-  - discriminate.
+  - reflexivity.
   - intros j p Hj Hh. destruct (Hth _ _ Hj) as [id [-> | ->]]; discriminate.
   - discriminate.
   - intros i Hi. destruct (Hth _ _ Hi) as [id [E | E]]; discriminate.
@@ -343,22 +352,22 @@ Proof.
     + intros Hne _. apply Hlv; [exact Hne | apply Hnossh_held; [exact Hm | discriminate]].
 Qed.
 
-Lemma error_free_tail o scr : error_free (o :: scr) = true -> o <> PErr /\ error_free scr = true.
-Proof. cbn. intros H. apply andb_true_iff in H. destruct H as [H1 H2]. split; [destruct o; congruence | exact H2]. Qed.
+Lemma error_free_tail o scr : error_free (o :: scr) = true -> o <> PErr /\ (forall id, o <> PData id) /\ error_free scr = true.
+Proof. cbn. intros H. apply andb_true_iff in H. destruct H as [H1 H2]. repeat split; [destruct o; congruence | destruct o; congruence | exact H2]. Qed.
 
 Lemma J_step_loop P s a s' : fixed_protocol P = true -> J s -> step_loop P s a = Some s' -> J s'.
 Proof.
   intros HP HJ Hs. destruct (fixed_protocol_spec P HP) as [Hnb [Hsa [Hrw [Hcap [Hpb Hsb]]]]].
   destruct HJ as [Ha Hscr Hnwp Hh Hpa Hfp Hlv].
   unfold step_loop in Hs.
-  destruct (loop s) eqn:El, a; try discriminate.
+  destruct (loop s) eqn:El, a; try discriminate; try (cbn in Hnwp; discriminate Hnwp).
   - (* LTop, TakeResume *)
     destruct (resumech s) as [|r] eqn:Er; [discriminate|]. inv_some. rewrite Hrw.
-    constructor; cbn; try assumption; try discriminate. intros _ _. right. left. reflexivity.
+    constructor; cbn; try assumption; try reflexivity; try discriminate. intros _ _. right. left. reflexivity.
   - (* LTop, TakePause *)
     destruct (pausech s) as [|pp] eqn:Ep; [discriminate|]. inv_some.
     constructor; cbn; try assumption.
-    + destruct (resumed s); discriminate.
+    + destruct (resumed s); reflexivity.
     + destruct (resumed s) eqn:Ers; [discriminate | intros _; reflexivity].
     + intros Hne Hno. destruct (Hlv Hne Hno) as [H1|[H1|[H1 _]]].
       * left. exact H1.
@@ -367,30 +376,28 @@ Proof.
   - (* LTop, Default *)
     destruct (pausech s) eqn:Ep; [|discriminate]. destruct (resumech s) eqn:Er; [|discriminate].
     destruct (mux s) eqn:Em; [discriminate|]. inv_some.
-    constructor; cbn; try rewrite Em; try assumption; try discriminate. intros _ _. right. right. split; [reflexivity | discriminate].
+    constructor; cbn; try rewrite Em; try assumption; try reflexivity; try discriminate. intros _ _. right. right. split; [reflexivity | discriminate].
   - (* LPaused, TakeResume *)
     destruct (resumech s) as [|r] eqn:Er; [discriminate|]. inv_some. rewrite Hrw.
-    constructor; cbn; try assumption; try discriminate. intros _ _. right. left. reflexivity.
+    constructor; cbn; try assumption; try reflexivity; try discriminate. intros _ _. right. left. reflexivity.
   - (* LPaused, TakePause *)
     destruct (pausech s) as [|pp] eqn:Ep; [discriminate|]. inv_some.
-    constructor; cbn; try assumption; try discriminate.
+    constructor; cbn; try assumption; try reflexivity; try discriminate.
     intros Hne Hno. destruct (Hlv Hne Hno) as [H1|[H1|[_ H1]]].
     + left. exact H1.
     + right. left. exact H1.
     + congruence.
   - (* LInPublish, Answer *)
     destruct (script s) as [|o rest] eqn:Escr; [discriminate|].
-    destruct (error_free_tail _ _ Hscr) as [Ho Hrest].
-    destruct o; try congruence; inv_some; constructor; cbn; try assumption; try discriminate;
+    destruct (error_free_tail _ _ Hscr) as [Ho [Ho2 Hrest]].
+    destruct o; try congruence; inv_some; constructor; cbn; try assumption; try reflexivity; try discriminate;
       (intros Hne Hno; destruct (Hlv Hne Hno) as [H1|[H1|[H1 _]]];
        [left; exact H1 | right; left; exact H1 | right; right; split; [exact H1 | discriminate]]).
   - (* LWantLock, Handle *)
     destruct (mux s) eqn:Em; [discriminate|]. inv_some.
-    constructor; cbn; try rewrite Em; try assumption; try discriminate.
+    constructor; cbn; try rewrite Em; try assumption; try reflexivity; try discriminate.
     intros Hne Hno. destruct (Hlv Hne Hno) as [H1|[H1|[H1 _]]];
       [left; exact H1 | right; left; exact H1 | right; right; split; [exact H1 | discriminate]].
-  - (* LWantPause: unreachable *)
-    congruence.
 Qed.
 
 Lemma J_reachable P s0 s : fixed_protocol P = true -> J s0 -> reachable P s0 s -> J s.
